@@ -1,7 +1,7 @@
 #!/bin/sh
 # applies every seeded change in turn to /repo's working tree, runs the quick check of its property, undoes it
 cd /verif
-for d in seeded/*/; do
+for d in /verif/seeded/*/; do
   id=$(basename "$d"); prop=${id%%-*}
   if ! git -C /repo apply --check "$d/patch.diff" 2>/dev/null; then echo "$id: patch no longer applies"; continue; fi
   git -C /repo apply "$d/patch.diff"
